@@ -242,7 +242,10 @@ func (r *AlternativesRanking) ReverseOrder() {
 func RemoveAlternative(alternatives []AlternativeWithCriteria, alternative AlternativeWithCriteria) []AlternativeWithCriteria {
 	for i, v := range alternatives {
 		if v.Id == alternative.Id {
-			return append(alternatives[:i], alternatives[i+1:]...)
+			// copy: the caller's slice may be shared (request data, bias reports, the state of earlier stages)
+			result := make([]AlternativeWithCriteria, 0, len(alternatives)-1)
+			result = append(result, alternatives[:i]...)
+			return append(result, alternatives[i+1:]...)
 		}
 	}
 	return alternatives
